@@ -13,8 +13,9 @@ def run(ck):
         raise Infra("plan generation produced %d" % len(plans))
     rnd = random.Random(ck.seed)
     rnd.shuffle(plans)
-    slow = [p for p in plans if "silence" in p["plan"]]
-    fast = [p for p in plans if "silence" not in p["plan"]]
+    is_slow = lambda p: any(k in ("silence", "digest-silence") for k in p["plan"])   # these cost a network timeout each
+    slow = [p for p in plans if is_slow(p)]
+    fast = [p for p in plans if not is_slow(p)]
     okp = [p for p in fast if p["outcome"] == "ok"]
     bad = [p for p in fast if p["outcome"] != "ok"]
     if q:
@@ -50,7 +51,7 @@ def run(ck):
 
 
 META = {
-    "text": "Pull.tla is the handshake automaton of the on-demand pull with the camera as environment: 5 steps x 10 answer kinds (success, Basic / Digest challenge, 401 for ever, 404, 500, garbage, silence, reset, EOF) and 4 behaviours after PLAY; its invariants are the statement's obligations. TLC enumerates all 1940 camera plans with the expected outcome; a scripted camera executes them while a real RTSP client requests the routed path (quick: a seeded 140 plus every (step, kind) pair; thorough: all), and the outcome, registry, camera-side connection state, connection counter and goroutines are compared; 12 rounds of two simultaneous first requests.",
+    "text": "Pull.tla is the handshake automaton of the on-demand pull with the camera as environment: 5 steps x 11 answer kinds (success, Basic / Digest challenge, 401 for ever, 404, 500, garbage, silence, reset, EOF, challenge followed by silence on the authenticated request) and 4 behaviours after PLAY; its invariants are the statement's obligations. TLC enumerates all 1941 camera plans with the expected outcome; a scripted camera executes them while a real RTSP client requests the routed path (quick: a seeded 140 plus every (step, kind) pair; thorough: all), and the outcome, registry, camera-side connection state, connection counter and goroutines are compared; 12 rounds of two simultaneous first requests.",
     "note": "Trusted: TLC, Pull.tla, the scripted camera and clients of harness/vclient.",
     "technique": "TLA+ automaton of the pull handshake with an adversarial camera; TLC-enumerated camera plans executed by a scripted camera against the real server",
     "specs": ["pull"],
